@@ -3,6 +3,10 @@
 theorems and the driver are checked against what the code says now).
 
   internal/transformations/unicode_bestfit.go  unicodeBestFitASCII  → Coraza.Tf.bestFitTable
+  internal/variables/variablesmap.gen.go, internal/corazawaf/rule.go (caseSensitiveVariable), internal/actions/*.go
+  (registrations and Type()), internal/transformations/transformations.go (registrations), base64decode.go (base64DecMap)
+                                               → Coraza.Generated.{variables, caseSensitiveVars, actions, transformations, base64DecMap}
+  (hand-written expectations in the models are tied to these by `decide` theorems: a changed table breaks a proof obligation)
 
 Writes lean/Coraza/Model/Generated/BestFit.lean only when the content changes (keeps lake's cache)."""
 import os, re, sys
@@ -30,7 +34,111 @@ def bestfit():
     return out
 
 
+def rd(rel):
+    return open(os.path.join(REPO, rel)).read()
+
+
+def go_str(tok):
+    """a Go interpreted string literal without escapes"""
+    if "\\" in tok:
+        raise SystemExit("gen_lean_tables: escape in string literal " + tok)
+    return tok[1:-1]
+
+
+def variables_tables():
+    """internal/variables/variablesmap.gen.go: rulemapRev (the names variables.Parse accepts), Name(), CanBeSelected();
+    internal/corazawaf/rule.go: caseSensitiveVariable"""
+    src = rd("internal/variables/variablesmap.gen.go")
+    m = re.search(r"var rulemapRev = map\[string\]RuleVariable\{(.*?)\n\}", src, re.S)
+    rev = re.findall(r'^\s*("[^"]*")\s*:\s*(\w+),\s*$', m.group(1), re.M)
+    if len(rev) != len([l for l in m.group(1).split("\n") if l.strip()]):
+        raise SystemExit("gen_lean_tables: rulemapRev not fully parsed")
+    nm = re.search(r"func \(v RuleVariable\) Name\(\) string \{\s*switch v \{(.*?)\n\t\}", src, re.S)
+    names = dict(re.findall(r'case (\w+):\s*return ("[^"]*")', nm.group(1)))
+    cs = re.search(r"func \(v RuleVariable\) CanBeSelected\(\) bool \{\s*switch v \{(.*?)\n\t\}", src, re.S)
+    sel = set(re.findall(r"case (\w+):\s*return true", cs.group(1)))
+    if len(re.findall(r"case ", cs.group(1))) != len(sel):
+        raise SystemExit("gen_lean_tables: CanBeSelected has a case that is not `return true`")
+    rows = sorted((go_str(k), go_str(names[ident]), ident in sel) for k, ident in rev)
+    rule = rd("internal/corazawaf/rule.go")
+    f = re.search(r"func caseSensitiveVariable\(v variables\.RuleVariable\) bool \{\s*res := false\s*switch v \{\s*case (.*?):\s*res = true\s*\}\s*return res\s*\}", rule, re.S)
+    if not f:
+        raise SystemExit("gen_lean_tables: caseSensitiveVariable has another shape")
+    idents = re.findall(r"variables\.(\w+)", f.group(1))
+    return rows, sorted(go_str(names[i]) for i in idents)
+
+
+def actions_table():
+    """internal/actions/actions.go registrations, each constructor's struct and its Type()"""
+    types = dict((n, int(v)) for n, v in re.findall(r"(ActionType\w+) ActionType = (\d+)", rd("experimental/plugins/plugintypes/action.go")))
+    d = os.path.join(REPO, "internal/actions")
+    allsrc = "\n".join(open(os.path.join(d, f)).read() for f in sorted(os.listdir(d)) if f.endswith(".go") and not f.endswith("_test.go"))
+    regs = re.findall(r'^\tRegister\(("[^"]*"), (\w+)\)', rd("internal/actions/actions.go"), re.M)
+    rows = []
+    for name, ctor in regs:
+        c = re.search(r"func %s\(\) plugintypes\.Action \{\s*return &(\w+)\{\}\s*\}" % re.escape(ctor), allsrc)
+        if not c:
+            raise SystemExit("gen_lean_tables: constructor of action " + name)
+        t = re.search(r"func \(\w+ \*%s\) Type\(\) plugintypes\.ActionType \{\s*return plugintypes\.(\w+)\s*\}" % re.escape(c.group(1)), allsrc)
+        if not t:
+            raise SystemExit("gen_lean_tables: Type() of action " + name)
+        rows.append((go_str(name).lower(), types[t.group(1)]))   # actions are looked up lower-cased (actions.Get)
+    return sorted(rows)
+
+
+def transformations_table():
+    regs = re.findall(r'^\tRegister\(("[^"]*"), (\w+)\)', rd("internal/transformations/transformations.go"), re.M)
+    return sorted((go_str(n).lower(), f) for n, f in regs)
+
+
+def base64_table():
+    m = re.search(r"var base64DecMap = \[\]byte\{(.*?)\}", rd("internal/transformations/base64decode.go"), re.S)
+    vals = [int(x) for x in re.findall(r"\d+", m.group(1))]
+    if len(vals) != 128:
+        raise SystemExit(f"gen_lean_tables: base64DecMap has {len(vals)} entries")
+    return vals
+
+
+def lit(s):
+    if not all(32 <= ord(c) < 127 and c not in '"\\' for c in s):
+        raise SystemExit("gen_lean_tables: unexpected character in name " + repr(s))
+    return '(b!"%s")' % s
+
+
+def write_if_changed(name, txt):
+    d = os.path.join(ROOT, "lean", "Coraza", "Model", "Generated")
+    os.makedirs(d, exist_ok=True)
+    p = os.path.join(d, name)
+    if not os.path.exists(p) or open(p).read() != txt:
+        open(p, "w").write(txt)
+        print(f"gen_lean_tables: wrote {p}")
+    else:
+        print(f"gen_lean_tables: {p} up to date")
+
+
+def tables():
+    vars_, cs = variables_tables()
+    acts, tfs, b64 = actions_table(), transformations_table(), base64_table()
+    L = ["/- GENERATED by tools/gen_lean_tables.py from /repo (internal/variables/variablesmap.gen.go, internal/corazawaf/rule.go,",
+         "   internal/actions/*.go, internal/transformations/transformations.go, base64decode.go) — do not edit -/",
+         "import Coraza.Base.Lit", "namespace Coraza.Generated", "open Coraza", "",
+         f"/-- rulemapRev / Name() / CanBeSelected(): accepted name (upper case), canonical name, selectable ({len(vars_)} entries, sorted) -/",
+         "def variables : List (Bytes × Bytes × Bool) := ["]
+    L += ["  " + ",\n  ".join(f"({lit(k)}, {lit(c)}, {'true' if s else 'false'})" for k, c, s in vars_) + "]", "",
+          "/-- caseSensitiveVariable (rule.go): canonical names -/",
+          "def caseSensitiveVars : List Bytes := [" + ", ".join(lit(n) for n in cs) + "]", "",
+          f"/-- actions.Register + Type(): lower-cased name, ActionType ({len(acts)} entries, sorted) -/",
+          "def actions : List (Bytes × Nat) := [", "  " + ",\n  ".join(f"({lit(n)}, {t})" for n, t in acts) + "]", "",
+          f"/-- transformations.Register: lower-cased name, Go function ({len(tfs)} entries, sorted) -/",
+          "def transformations : List (Bytes × Bytes) := [", "  " + ",\n  ".join(f"({lit(n)}, {lit(f)})" for n, f in tfs) + "]", "",
+          "/-- base64DecMap (base64decode.go) -/",
+          "def base64DecMap : List UInt8 := [" + ", ".join(str(v) for v in b64) + "]", "",
+          "end Coraza.Generated", ""]
+    write_if_changed("Tables.lean", "\n".join(L))
+
+
 def main():
+    tables()
     t = bestfit()
     lines = ["/- GENERATED by tools/gen_lean_tables.py from /repo/internal/transformations/unicode_bestfit.go — do not edit -/",
              "import Coraza.Base.Bytes", "namespace Coraza.Tf", "",
